@@ -223,7 +223,7 @@ Proof.
         assert (e2 = (fv, (i, f0))) by (eapply wf_same_fid; eauto). subst e2.
         unfold e_path in Hc at 2. simpl in Hc.
         destruct (Hsep e1 st1 l1 H1 (compat_sym _ _ Hc) N1 R1); lia.
-      * rewrite Hoth in R1, R2 by congruence. eapply HD; eauto.
+      * rewrite Hoth in R1, R2 by congruence. apply (HD e1 e2 H1 H2 Hne Hc _ _ _ _ R1 R2).
     + (* InRange *)
       intros e st0 l0 He Hr. destruct (Nat.eq_dec (e_fid e) f0) as [E|N].
       * rewrite E, Hnew in Hr. inversion Hr; subst. lia.
@@ -232,7 +232,7 @@ Proof.
       intros e He. destruct (Nat.eq_dec (e_fid e) f0) as [E|N].
       * rewrite E. subst s'. rewrite sget_sset_same by exact Hb. simpl.
         assert (He0 : In (fv, (i, f0)) (entries t)) by exact Hin.
-        destruct (HM _ He0) as [M1 M2]. simpl in M1, M2. split; [exact M1|].
+        destruct (HM _ He0) as [M1 M2]. unfold e_fid in M1, M2. simpl in M1, M2. split; [exact M1|].
         intros l0 El0. inversion El0; subst l0. split; [exact Hl|].
         destruct Hlen as [Hl1|[Hl1 Hl2]].
         -- now apply M2.
@@ -260,6 +260,8 @@ Lemma Covers_stable t s s' fv a :
   (forall g, frange s' g = frange s g) -> Covers t s fv a -> Covers t s' fv a.
 Proof. intros H C e st l He Hc Hr. rewrite H in Hr. eapply C; eauto. Qed.
 
+Ltac same_store HI := split; [first [assumption|reflexivity]|split; [exact HI|split; [apply Stable_refl|]]].
+
 (* ------------------------------------------------------------------ the loop over a node's fields *)
 Lemma assign_idents_inv L orig pos t n fv :
   wf_tree t n ->
@@ -271,11 +273,11 @@ Lemma assign_idents_inv L orig pos t n fv :
     /\ (err = None -> pos = true -> forall x, In x ids -> frange s' (snd x) <> None).
 Proof.
   intros W. induction ids as [|[i f0] ids IH]; intros a s s' err Hids Hn HI HC H; simpl in H.
-  - inversion H; subst. repeat split; auto; try apply Stable_refl; try apply HI. intros _ _ x [].
+  - inversion H; subst. same_store HI. intros _ _ x [].
   - assert (Hin0 : In (fv, (i, f0)) (entries t)) by (apply Hids; now left).
     assert (Hids' : forall x, In x ids -> In (fv, x) (entries t)) by (intros; apply Hids; now right).
     destruct (get_field t i fv) as [fid|] eqn:Eg.
-    2:{ inversion H; subst. repeat split; auto; try apply Stable_refl; try apply HI. discriminate. }
+    2:{ inversion H; subst. same_store HI. discriminate. }
     assert (fid = f0) by (eapply wf_get_field; eauto). subst fid.
     assert (Hskip : forall (Hr : frange s f0 <> None \/ True) s2 e2,
               assign_idents L orig pos t fv ids a s = (s2, e2) ->
@@ -283,7 +285,7 @@ Proof.
               length s2 = n /\ LInv L t s2 /\ Stable s s2
               /\ (e2 = None -> pos = true -> forall x, In x ((i, f0) :: ids) -> frange s2 (snd x) <> None)).
     { intros _ s2 e2 H2 Hp. destruct (IH _ _ _ _ Hids' Hn HI HC H2) as [A [B [C D]]].
-      repeat split; auto. intros E1 E2 x [<-|Hx]; [|now apply D].
+      split; [exact A|split; [exact B|split; [exact C|]]]. intros E1 E2 x [<-|Hx]; [|now apply D].
       simpl. specialize (Hp E1 E2). destruct (frange s f0) as [[st l]|] eqn:Er; [|congruence].
       destruct C as [C _]. rewrite (C _ _ _ Er). discriminate. }
     destruct (f_len (sget s f0)) as [l0|] eqn:El; destruct (f_start (sget s f0)) as [st0|] eqn:Es.
@@ -293,7 +295,7 @@ Proof.
       destruct (pos || false) eqn:Ep.
       2:{ apply (Hskip (or_intror I) _ _ H). intros _ Hp. rewrite Hp in Ep. discriminate. }
       destruct (assign_field L orig a (sget s f0)) as [[a' f']| | |] eqn:Ea;
-        try (inversion H; subst; repeat split; auto; try apply Stable_refl; try apply HI; discriminate).
+        try (inversion H; subst; same_store HI; discriminate).
       destruct HI as [HD [HR HM]].
       destruct (assign_field_ok _ _ _ _ _ _ Ea) as [st [l [Hf' [P1 [P2 [P3 [P4 [P5 P6]]]]]]]].
       { intros l Hl. apply (proj2 (HM _ Hin0)). exact Hl. }
@@ -301,14 +303,14 @@ Proof.
       destruct (place_keeps_inv L t n s fv i f0 a a' st l W Hn Hin0 (conj HD (conj HR HM)) HC)
         as [I1 [C1 [S1 R1]]]; auto.
       { unfold frange. now rewrite Es. }
-      destruct (IH _ _ _ _ Hids' ltac:(now rewrite length_sset) I1 C1 H) as [A [B [C D]]].
-      repeat split; auto.
-      * eapply Stable_trans; eauto.
-      * intros E1 E2 x [<-|Hx]; [|now apply D]. simpl. destruct C as [C _]. rewrite (C _ _ _ R1). discriminate.
+      assert (Hn1 : length (sset s f0 (set_pos (sget s f0) l st)) = n) by (now rewrite length_sset).
+      destruct (IH _ _ _ _ Hids' Hn1 I1 C1 H) as [A [B [C D]]].
+      split; [exact A|split; [exact B|split; [eapply Stable_trans; eauto|]]].
+      intros E1 E2 x [<-|Hx]; [|now apply D]. simpl. destruct C as [C _]. rewrite (C _ _ _ R1). discriminate.
     + (* position known, length not: assigned in either pass *)
       assert (Ep : pos || true = true) by apply orb_true_r. rewrite Ep in H.
       destruct (assign_field L orig a (sget s f0)) as [[a' f']| | |] eqn:Ea;
-        try (inversion H; subst; repeat split; auto; try apply Stable_refl; try apply HI; discriminate).
+        try (inversion H; subst; same_store HI; discriminate).
       destruct HI as [HD [HR HM]].
       destruct (assign_field_ok _ _ _ _ _ _ Ea) as [st [l [Hf' [P1 [P2 [P3 [P4 [P5 P6]]]]]]]].
       { intros l Hl. apply (proj2 (HM _ Hin0)). exact Hl. }
@@ -316,15 +318,15 @@ Proof.
       destruct (place_keeps_inv L t n s fv i f0 a a' st l W Hn Hin0 (conj HD (conj HR HM)) HC)
         as [I1 [C1 [S1 R1]]]; auto.
       { unfold frange. now rewrite Es, El. }
-      destruct (IH _ _ _ _ Hids' ltac:(now rewrite length_sset) I1 C1 H) as [A [B [C D]]].
-      repeat split; auto.
-      * eapply Stable_trans; eauto.
-      * intros E1 E2 x [<-|Hx]; [|now apply D]. simpl. destruct C as [C _]. rewrite (C _ _ _ R1). discriminate.
+      assert (Hn1 : length (sset s f0 (set_pos (sget s f0) l st)) = n) by (now rewrite length_sset).
+      destruct (IH _ _ _ _ Hids' Hn1 I1 C1 H) as [A [B [C D]]].
+      split; [exact A|split; [exact B|split; [eapply Stable_trans; eauto|]]].
+      intros E1 E2 x [<-|Hx]; [|now apply D]. simpl. destruct C as [C _]. rewrite (C _ _ _ R1). discriminate.
     + (* neither known *)
       destruct (pos || false) eqn:Ep.
       2:{ apply (Hskip (or_intror I) _ _ H). intros _ Hp. rewrite Hp in Ep. discriminate. }
       destruct (assign_field L orig a (sget s f0)) as [[a' f']| | |] eqn:Ea;
-        try (inversion H; subst; repeat split; auto; try apply Stable_refl; try apply HI; discriminate).
+        try (inversion H; subst; same_store HI; discriminate).
       destruct HI as [HD [HR HM]].
       destruct (assign_field_ok _ _ _ _ _ _ Ea) as [st [l [Hf' [P1 [P2 [P3 [P4 [P5 P6]]]]]]]].
       { intros l Hl. apply (proj2 (HM _ Hin0)). exact Hl. }
@@ -332,10 +334,10 @@ Proof.
       destruct (place_keeps_inv L t n s fv i f0 a a' st l W Hn Hin0 (conj HD (conj HR HM)) HC)
         as [I1 [C1 [S1 R1]]]; auto.
       { unfold frange. now rewrite Es. }
-      destruct (IH _ _ _ _ Hids' ltac:(now rewrite length_sset) I1 C1 H) as [A [B [C D]]].
-      repeat split; auto.
-      * eapply Stable_trans; eauto.
-      * intros E1 E2 x [<-|Hx]; [|now apply D]. simpl. destruct C as [C _]. rewrite (C _ _ _ R1). discriminate.
+      assert (Hn1 : length (sset s f0 (set_pos (sget s f0) l st)) = n) by (now rewrite length_sset).
+      destruct (IH _ _ _ _ Hids' Hn1 I1 C1 H) as [A [B [C D]]].
+      split; [exact A|split; [exact B|split; [eapply Stable_trans; eauto|]]].
+      intros E1 E2 x [<-|Hx]; [|now apply D]. simpl. destruct C as [C _]. rewrite (C _ _ _ R1). discriminate.
 Qed.
 
 Lemma assign_node_inv L orig pos t n s node s' err :
@@ -347,7 +349,7 @@ Lemma assign_node_inv L orig pos t n s node s' err :
 Proof.
   intros W Hnode Hn HI H. unfold assign_node in H.
   destruct (potential_bits s (potential_fields t (fst node)) 0) as [a| | |] eqn:Ep;
-    try (inversion H; subst; repeat split; auto; try apply Stable_refl; try apply HI; discriminate).
+    try (inversion H; subst; same_store HI; discriminate).
   eapply assign_idents_inv; eauto. now apply potential_bits_covers.
 Qed.
 
@@ -360,24 +362,28 @@ Lemma assign_nodes_inv L orig pos t n : wf_tree t n ->
     /\ (err = None -> pos = true -> forall nd x, In nd nodes -> In x (snd nd) -> frange s' (snd x) <> None).
 Proof.
   intros W. induction nodes as [|nd nodes IH]; intros s s' err Hnodes Hn HI H; simpl in H.
-  - inversion H; subst. repeat split; auto; try apply Stable_refl; try apply HI. intros _ _ ? ? [].
-  - destruct (assign_node L orig pos t s nd) as [s1 [k|]] eqn:E1.
-    + inversion H; subst.
-      destruct (assign_node_inv _ _ _ _ _ _ _ _ _ W (fun x Hx => Hnodes nd x (or_introl eq_refl) Hx) Hn HI E1)
-        as [A [B [C D]]].
-      repeat split; auto; try apply B. discriminate.
-    + destruct (assign_node_inv _ _ _ _ _ _ _ _ _ W (fun x Hx => Hnodes nd x (or_introl eq_refl) Hx) Hn HI E1)
-        as [A [B [C D]]].
-      destruct (IH _ _ _ (fun nd' x H1 H2 => Hnodes nd' x (or_intror H1) H2) A B H) as [A' [B' [C' D']]].
-      repeat split; auto; try apply B'.
-      * eapply Stable_trans; eauto.
-      * intros E2 E3 nd' x [<-|Hnd] Hx.
-        -- specialize (D eq_refl E3 x Hx). destruct (frange s1 (snd x)) as [[st l]|] eqn:Er; [|congruence].
-           destruct C' as [C' _]. rewrite (C' _ _ _ Er). discriminate.
-        -- eapply D'; eauto.
+  - inversion H; subst. same_store HI. intros _ _ ? ? [].
+  - destruct (assign_node L orig pos t s nd) as [s1 ek] eqn:E1.
+    destruct (assign_node_inv _ _ _ _ _ _ _ _ _ W (fun x Hx => Hnodes nd x (or_introl eq_refl) Hx) Hn HI E1)
+      as [A [B [C D]]].
+    destruct ek as [k|].
+    + inversion H; subst s' err.
+      split; [exact A|split; [exact B|split; [exact C|discriminate]]].
+    + destruct (IH _ _ _ (fun nd' x H1 H2 => Hnodes nd' x (or_intror H1) H2) A B H) as [A' [B' [C' D']]].
+      split; [exact A'|split; [exact B'|split; [eapply Stable_trans; eauto|]]].
+      intros E2 E3 nd' x [<-|Hnd] Hx.
+      * specialize (D eq_refl E3 x Hx). destruct (frange s1 (snd x)) as [[st l]|] eqn:Er; [|congruence].
+        destruct C' as [C' _]. rewrite (C' _ _ _ Er). discriminate.
+      * eapply D'; eauto.
 Qed.
 
 (* ------------------------------------------------------------------ assign_fields *)
+Lemma bfs_nodes_ok t : forall nd x, In nd (nodes_bfs t) -> In x (snd nd) -> In (fst nd, x) (entries t).
+Proof. intros [fv fs] x H1 H2. eapply nodes_bfs_flat; eauto. Qed.
+
+Lemma post_nodes_ok t : forall nd x, In nd (nodes_post t []) -> In x (snd nd) -> In (fst nd, x) (entries t).
+Proof. intros [fv fs] x H1 H2. eapply nodes_post_flat; eauto. Qed.
+
 Lemma assign_fields_inv orig st st' err :
   wf_tree (s_tree st) (length (s_store st)) -> LInv (s_len st) (s_tree st) (s_store st) ->
   assign_fields_gen orig st = (st', err) ->
@@ -391,22 +397,19 @@ Proof.
     as [s1 [k|]] eqn:E1.
   - inversion H; subst; simpl.
     destruct (assign_nodes_inv _ _ _ _ _ W _ _ _ _
-                (fun nd x H1 H2 => nodes_bfs_flat _ (fst nd) (snd nd) x ltac:(now destruct nd) H2)
+                (bfs_nodes_ok _)
                 eq_refl HI E1) as [A [B [C _]]].
-    repeat split; auto; try apply B; try apply C. discriminate.
+    split; [reflexivity|split; [reflexivity|split; [reflexivity|split; [exact A|split; [exact B|split; [exact C|discriminate]]]]]].
   - destruct (assign_nodes_inv _ _ _ _ _ W _ _ _ _
-                (fun nd x H1 H2 => nodes_bfs_flat _ (fst nd) (snd nd) x ltac:(now destruct nd) H2)
+                (bfs_nodes_ok _)
                 eq_refl HI E1) as [A [B [C _]]].
     destruct (assign_nodes (s_len st) orig true (s_tree st) s1 (nodes_post (s_tree st) [])) as [s2 e2] eqn:E2.
     inversion H; subst; simpl.
     destruct (assign_nodes_inv _ _ _ _ _ W _ _ _ _
-                (fun nd x H1 H2 => nodes_post_flat _ [] (fst nd) (snd nd) x ltac:(now destruct nd) H2)
+                (post_nodes_ok _)
                 A B E2) as [A' [B' [C' D']]].
-    repeat split; auto; try apply B'.
-    + apply (Stable_trans _ _ _ C C').
-    + apply (Stable_trans _ _ _ C C').
-    + apply (Stable_trans _ _ _ C C').
-    + intros Ee e He. destruct (flat_nodes_post _ _ _ He) as [fs [F1 F2]].
+    split; [reflexivity|split; [reflexivity|split; [reflexivity|split; [congruence|split; [exact B'|split; [apply (Stable_trans _ _ _ C C')|]]]]]].
+    intros Ee e He. destruct (flat_nodes_post _ _ _ He) as [fs [F1 F2]].
       apply (D' Ee eq_refl (fst e, fs) (snd e) F1 F2).
 Qed.
 
@@ -427,7 +430,7 @@ Proof.
   intros HR HM Hp i f Hin. apply all_fields_flat in Hin. destruct Hin as [path Hin].
   specialize (Hp _ Hin). simpl in Hp. unfold e_fid in Hp. simpl in Hp.
   destruct (frange s f) as [[st l]|] eqn:Er; [|congruence].
-  exists st, l. split; [reflexivity|].
+  exists st, l. split; [exact Er|].
   destruct (HR _ _ _ Hin Er) as [R1 R2].
   assert (0 < l).
   { unfold frange in Er. destruct (f_start (sget s f)); [|discriminate].
